@@ -442,6 +442,7 @@ int __wrap_pthread_rwlock_init(pthread_rwlock_t *m, const pthread_rwlockattr_t *
 	}
 	return __real_pthread_rwlock_init(m, a);
 }
+int vs_unlock_points;
 int __wrap_pthread_mutex_lock(pthread_mutex_t *m) {
 	if (!active || self_id < 0) return __real_pthread_mutex_lock(m);
 	int i = lock_find(m, 0, 1);
@@ -457,7 +458,9 @@ int __wrap_pthread_mutex_unlock(pthread_mutex_t *m) {
 		return EPERM;
 	}
 	lk[i].owner = -1; held_del(self_id, i);
-	return __real_pthread_mutex_unlock(m);
+	int r = __real_pthread_mutex_unlock(m);
+	if (vs_unlock_points) vs_point();      /* harnesses that look for accesses made AFTER a lock was dropped: the code up to the next acquisition is not atomic */
+	return r;
 }
 int __wrap_pthread_rwlock_rdlock(pthread_rwlock_t *m) {
 	if (!active || self_id < 0) return __real_pthread_rwlock_rdlock(m);
@@ -482,7 +485,9 @@ int __wrap_pthread_rwlock_unlock(pthread_rwlock_t *m) {
 		vs_event("unlock-not-held %s by t%d", vs_lock_name(i), self_id);
 		return EPERM;
 	}
-	return __real_pthread_rwlock_unlock(m);
+	int r = __real_pthread_rwlock_unlock(m);
+	if (vs_unlock_points) vs_point();
+	return r;
 }
 int __wrap_pthread_create(pthread_t *h, const pthread_attr_t *a, void *(*fn)(void *), void *arg) {
 	if (!active || self_id < 0) return __real_pthread_create(h, a, fn, arg);
